@@ -186,6 +186,7 @@ func startServer(bin string) (*restDriver, error) {
 	port := freePort()
 	addr := fmt.Sprintf("127.0.0.1:%d", port)
 	cmd := exec.Command(bin, "-serve", addr)
+	childDiesWithUs(cmd)
 	cmd.Stdout, cmd.Stderr = io.Discard, io.Discard
 	if err := cmd.Start(); err != nil {
 		return nil, err
